@@ -68,6 +68,10 @@ type HistoryPlan struct {
 	// Concurrent: run over a simulated link with the proxy's read pump parked
 	// inside Conn.Read while backend records pass through Conn.Write.
 	Concurrent bool `json:"concurrent,omitempty"`
+	// CtxDeadline (concurrent histories): NewConn is given a context with a
+	// deadline five seconds away (and cancelled on return, as callers do); the
+	// history goes on long after that instant.
+	CtxDeadline bool `json:"ctx_deadline,omitempty"`
 }
 
 // histClient builds the client's records, holding the sender HPKE context.
@@ -440,7 +444,7 @@ type readResult struct {
 }
 
 // concIO must be used inside a synctest bubble.
-func concIO(w *simnet.World, b *built) *histIO {
+func concIO(w *simnet.World, b *built, ctxDeadline bool) *histIO {
 	lat := simnet.LinkCfg{Seg: simnet.SegWhole, LatMinUs: 20, LatMaxUs: 200}
 	cc, fc := w.Pipe("c", "f", lat, lat)
 	var conn *ech.Conn
@@ -502,10 +506,18 @@ func concIO(w *simnet.World, b *built) *histIO {
 		settle:      settle,
 		start: func() (first []byte, accepted bool, err error) {
 			cc.Write(b.outerRec)
+			ctx, cancel := context.Background(), context.CancelFunc(func() {})
+			if ctxDeadline {
+				ctx, cancel = context.WithTimeout(ctx, 5*time.Second)
+			}
 			if p, m, s := core.Guard(func() {
-				conn, err = ech.NewConn(context.Background(), fc, append(keyOptions(b.keys), ech.WithDebug(dbgHook))...)
+				conn, err = ech.NewConn(ctx, fc, append(keyOptions(b.keys), ech.WithDebug(dbgHook))...)
 			}); p {
 				*pk = s + ": " + normMsg(m)
+			}
+			cancel()
+			if ctxDeadline {
+				time.Sleep(time.Minute) // the handshake goes on long after that deadline
 			}
 			if *pk != "" || err != nil {
 				return nil, false, err
@@ -666,7 +678,10 @@ func executeHistory(t *testing.T, prop string, seed uint64, p *HistoryPlan) *cor
 	res.Probe("concurrent_history")
 	msg := core.Bubble(t, func(t *testing.T) {
 		w := simnet.NewWorld(seed)
-		runHistory(prop, seed, p, b, concIO(w, b), res)
+		if p.CtxDeadline {
+			res.Probe("newconn_context_deadline_long_past")
+		}
+		runHistory(prop, seed, p, b, concIO(w, b, p.CtxDeadline), res)
 		res.SimNs = w.Now()
 		for _, c := range w.Conns() {
 			c.Close()
@@ -1052,6 +1067,7 @@ func genC06(seed uint64, idx int) *Plan {
 		base.Keys = append([]KeySpec{sib}, base.Keys...)
 	}
 	h := &HistoryPlan{Base: *base, Concurrent: r.IntN(3) == 0}
+	h.CtxDeadline = h.Concurrent && idx%2 == 1
 	if idx%16 == 11 {
 		// a long row of records a peer must ignore between the retry request and
 		// the second hello (however many: the hello that follows is still the
